@@ -1027,3 +1027,94 @@ Proof.
   destruct d as [|[|[|d]]]; try (vm_compute in P; discriminate).
   rewrite get_ge in P; [discriminate|]. vm_compute. lia.
 Qed.
+
+(* ------------------------------------------------------------------------------------------------ *)
+(* _build_value never hits the model's internal-error result: the fuel S c suffices because operands are older than
+   their condition, and every processed leaf has a value *)
+
+Definition tree_ok (s : state) : Prop :=
+  forall d dev all ops n o, get_event d s = Some dev -> kind dev = KCond all ops n -> In o ops ->
+    (o < d)%nat /\ get_event o s <> None.
+
+Lemma tree_ok_cinv X s : cinv X s -> tree_ok s.
+Proof.
+  intros CI d dev all ops n o Hd Kd Io. pose proof (ci_older _ _ CI _ _ _ _ _ Hd Kd _ Io) as L. split; [exact L|].
+  apply get_lt in Hd. intros E. apply nth_error_None in E. lia.
+Qed.
+
+Lemma tree_ok_kinds_eq s s' : kinds_eq s s' -> tree_ok s -> tree_ok s'.
+Proof.
+  intros K T d dev all ops n o Hd Kd Io.
+  destruct (kinds_eq_get _ _ _ _ (kinds_eq_sym _ _ K) Hd) as (dev0 & Hd0 & Kd0).
+  destruct (T d dev0 all ops n o Hd0 ltac:(congruence) Io) as (L & E). split; [exact L|].
+  destruct (get_event o s) as [oev|] eqn:Eo; [|congruence].
+  destruct (kinds_eq_get _ _ _ _ K Eo) as (oev' & Eo' & _). congruence.
+Qed.
+
+Lemma remove_checks_total f : forall c s, tree_ok s -> (c <= f)%nat -> get_event c s <> None -> remove_checks (S f) c s <> None.
+Proof.
+  induction f as [|f IH]; intros c s T Lc Hc; cbn [remove_checks];
+    (destruct (get_event c s) as [cev|] eqn:E; [|congruence]);
+    (destruct (kind cev) as [| | | | |all ops n|] eqn:K; try discriminate).
+  - (* f = 0: c = 0, no operands *)
+    assert (ops = []).
+    { destruct ops as [|o t]; [reflexivity|]. destruct (T c cev all (o :: t) n o E K (or_introl eq_refl)) as (L & _). lia. }
+    subst ops. discriminate.
+  - assert (Gen : forall l s1, (forall o, In o l -> In o ops) -> kinds_eq s s1 -> remove_ops (remove_checks (S f)) c l s1 <> None).
+    { induction l as [|o t IHl]; intros s1 Sub K1; cbn [remove_ops]; [discriminate|].
+      assert (Io : In o ops) by (apply Sub; left; reflexivity).
+      destruct (T c cev all ops n o E K Io) as (Lo & Eo).
+      destruct (get_event o s) as [oev0|] eqn:Eo0; [|congruence].
+      destruct (kinds_eq_get _ _ _ _ K1 Eo0) as (oev & Eo1 & Ko1). rewrite Eo1.
+      assert (K2 : kinds_eq s (remove_check_from c o s1)) by (eapply kinds_eq_trans; [exact K1|apply kinds_eq_remove_check_from]).
+      destruct (is_cond oev).
+      + destruct (remove_checks (S f) o (remove_check_from c o s1)) as [s2|] eqn:R.
+        * apply IHl; [intros; apply Sub; right; assumption|].
+          eapply kinds_eq_trans; [exact K2|]. eapply rmsteps_kinds_eq, remove_checks_rm, R.
+        * exfalso. revert R. apply IH; [eapply tree_ok_kinds_eq; eassumption|lia|].
+          destruct (kinds_eq_get _ _ _ _ K2 Eo0) as (x & Hx & _). congruence.
+      + apply IHl; [intros; apply Sub; right; assumption|exact K2]. }
+    apply Gen; [auto|apply kinds_eq_refl].
+Qed.
+
+Lemma populate_total evs (Tr : forall d dev all ops n o, nth_error evs d = Some dev -> kind dev = KCond all ops n -> In o ops ->
+                                 (o < d)%nat /\ nth_error evs o <> None)
+      (Val : forall o oev, nth_error evs o = Some oev -> cbs oev = None -> out oev <> None) :
+  forall f ops, (forall o, In o ops -> (o < f)%nat /\ nth_error evs o <> None) -> populate (S f) evs ops <> None.
+Proof.
+  induction f as [|f IH]; intros ops Hb.
+  - cbn [populate]. destruct ops as [|o t]; [discriminate|]. destruct (Hb o (or_introl eq_refl)) as (L & _). lia.
+  - change (populate (S (S f)) evs ops) with (populate_ops (populate (S f) evs) evs ops).
+    assert (Hrec : forall ops', (forall x, In x ops' -> (x < f)%nat /\ nth_error evs x <> None) -> populate (S f) evs ops' <> None) by exact IH.
+    clear IH. generalize dependent (populate (S f) evs). intros rec Hrec.
+    induction ops as [|o t IHo]; cbn [populate_ops]; [discriminate|].
+    destruct (Hb o (or_introl eq_refl)) as (Lo & Eo). destruct (nth_error evs o) as [oev|] eqn:E; [|congruence].
+    assert (Rest : populate_ops rec evs t <> None) by (apply IHo; intros; apply Hb; right; assumption).
+    destruct (populate_ops rec evs t) as [rest|]; [|congruence].
+    destruct (kind oev) as [| | | | |all ops' n|] eqn:K;
+      try (destruct (cbs oev) eqn:C; [discriminate|];
+           unfold raw_value; pose proof (Val _ _ E C) as O; destruct (out oev) as [[?|?]|]; [discriminate|discriminate|congruence]).
+    assert (Inner : rec ops' <> None).
+    { apply Hrec. intros x Ix. destruct (Tr o oev all ops' n x E K Ix) as (Lx & Ex). split; [lia|exact Ex]. }
+    destruct (rec ops'); [discriminate|congruence].
+Qed.
+
+Theorem cond_build_ok X s c cev :
+  cinv X s -> get_event c s = Some cev -> is_cond cev = true -> out cev <> None -> snd (cond_build c s) = ROk.
+Proof.
+  intros CI Hc Kc Oc. pose proof (tree_ok_cinv _ _ CI) as T.
+  unfold cond_build. destruct (remove_checks (S c) c s) as [s1|] eqn:R.
+  2:{ exfalso. revert R. apply remove_checks_total; [exact T|lia|congruence]. }
+  pose proof (remove_checks_rm _ _ _ _ R) as RM. pose proof (rmsteps_rmrel _ _ _ RM) as RR.
+  assert (CI1 : cinv X s1).
+  { eapply rmsteps_ind_P; [|exact RM|exact CI]. intros; apply cinv_remove_check_from; assumption. }
+  pose proof (RR c) as Rc. rewrite Hc in Rc. destruct (get_event c s1) as [cev1|] eqn:Hc1; [|contradiction].
+  destruct Rc as (K1 & O1 & _). rewrite O1. destruct (out cev) as [[v|x]|]; [|reflexivity|congruence].
+  unfold is_cond in Kc. rewrite K1. destruct (kind cev) as [| | | | |all ops n|] eqn:K; try discriminate.
+  destruct (populate (S c) (events s1) ops) eqn:PO; [reflexivity|]. exfalso. revert PO.
+  pose proof (tree_ok_cinv _ _ CI1) as T1.
+  apply populate_total.
+  - intros d dev a ops0 n0 o Hd Kd Io. exact (T1 d dev a ops0 n0 o Hd Kd Io).
+  - intros o oev Ho Co. exact (ci_proc_trig _ _ CI1 o oev Ho Co).
+  - intros o Io. exact (T1 c cev1 all ops n o Hc1 ltac:(congruence) Io).
+Qed.
